@@ -199,11 +199,18 @@ def check(ctx):
                      '(%s) is applied without its validity condition or together with its warning: %s' % (A(annc), show_(applied)))
     # _is_pointer_type: a return value is never a pointer merely because its direction is out
     IP = gsa.summarise(ctx, MT, 'MainTransformer._is_pointer_type')
-    short = [(g, n) for g, n in IP.returns if gsa._unparse(n) == 'True' and any('PARAM_DIRECTION_OUT' in a_ for a_ in gsa.atoms(g))]
-    okp = bool(short) and all(gsa.ev3(g, dict((a_, True) for a_ in gsa.atoms(g) if re.search(r'isinstance\(\w+, ast\.Return\)', a_))) is False for g, n in short)
+    # T = "returns true".  For a Return node T must not depend on the direction at all; for a parameter, direction out/inout alone makes T hold
+    T_ = gsa.true_formula(IP)
+    ra = [a_ for a_ in gsa.atoms(T_) if re.search(r'isinstance\(\w+, ast\.Return\)', a_)]
+    da = [a_ for a_ in gsa.atoms(T_) if 'PARAM_DIRECTION_' in a_]
+    as_ret = gsa.assign(T_, dict((a_, True) for a_ in ra))
+    as_par = gsa.assign(T_, dict((a_, False) for a_ in ra))
+    okp = bool(ra) and bool(da) and gsa.equiv(gsa.assign(as_ret, dict((a_, True) for a_ in da)), gsa.assign(as_ret, dict((a_, False) for a_ in da))) and \
+        all(gsa.assign(as_par, {a_: True}) is True for a_ in da)
+    as_ret, as_par = gsa.show(as_ret)[:160], gsa.show(as_par)[:160]
     r3.check(okp, 'out-direction shortcut excludes return values', rel, IP.func.lineno,
              '_is_pointer_type treats everything with direction out as a pointer (%s): ast.Return always has direction out, so nullable/transfer on a plain gint '
-             'return value are accepted silently' % [gsa.show(g)[:200] for g, n in short], detail=[gsa.show(g)[:200] for g, n in short])
+             'return value are accepted silently' % ['return node: %s' % as_ret, 'parameter: %s' % as_par], detail=[str(as_ret), str(as_par)])
     # callbacks: scope/destroy/closure on non-callbacks
     cw = [e for e in gsa.find(SP, 'call', r'^message\.warn$') if gsa.excluded_by(SP, e, CB) and re.search(r'ANN_(SCOPE|DESTROY|CLOSURE)', e.when())]
     cstores = gsa.find(SP, 'store', r'\.(scope|destroy_name|closure_name)$')
@@ -212,7 +219,7 @@ def check(ctx):
     r3.check(len(cw) >= 1 and not clash and all(any(re.search(a_, w_.when()) for w_ in cw) for a_ in ('ANN_SCOPE', 'ANN_DESTROY', 'ANN_CLOSURE')),
              'scope/destroy/closure on a non-callback: warned and ignored', rel, line_of(cw), 'non-callback branch changed: warnings %s, stores alongside %s' % (show_(cw), show_([e for w_, e in clash])))
     cl_st = gsa.find(SP, 'store', r'\.closure_name$', r'\.argname$')
-    r3.check(len(cl_st) >= 1 and all(gsa.excluded_by(SP, e, r'\.get\(ANN_CLOSURE\)$') for e in cl_st), '(closure X) with argument on a callback type is rejected', rel, line_of(cl_st),
+    r3.check(len(cl_st) >= 1 and all(gsa.excluded_by(SP, e, r'(\.get\(ANN_CLOSURE\)|\[ANN_CLOSURE\])$') for e in cl_st), '(closure X) with argument on a callback type is rejected', rel, line_of(cl_st),
              'closure_name stores: %s' % show_(cl_st))
 
     # ------------------------------------------------------------------ R4 emission mapping
